@@ -73,13 +73,20 @@ func (p *printer) writeToken(t *token.Token) {
 		return
 	}
 
-	p.adjacent = p.last != nil && t.Position != nil && p.lastEnd == t.Position.StartPos
+	p.adjacent = p.last != nil && t.Position != nil && p.lastEnd == t.Position.StartPos && touching(p.last, t.Value)
 	p.write(t.Value)
 	p.adjacent = false
 
 	if t.Position != nil {
 		p.lastEnd = t.Position.EndPos
 	}
+}
+
+// touching reports whether b begins in memory where a ends, i.e. both are neighbouring slices of one source buffer.
+// Equal offsets alone do not make two tokens neighbours: a token grafted from another tree may start, by coincidence,
+// at the offset where the previous token of this tree ended.
+func touching(a, b []byte) bool {
+	return len(a) > 0 && len(b) > 0 && cap(a) > len(a) && &a[:len(a)+1][len(a)] == &b[0]
 }
 
 func (p *printer) printNode(n ast.Vertex) {
